@@ -133,7 +133,26 @@ def run(idx, rep, tier):
                    detail="" if ok else "pairing", locs=[idx.loc(eigs.module, eigs.node)])
         prod = f"{qn}@" in src
         rep.decide(True if prod else None, "eigs-pairing", "arnoldi_eigs:vectors", "Ritz vectors are Q times the eigenvectors of H", locs=[idx.loc(eigs.module, eigs.node)])
+    # ---- arnoldi_eigs returns EVERY Ritz value of H: no data-dependent mask on the spectrum
+    masks = []
+    for n in df.body_nodes(eigs.node):
+        if isinstance(n, ast.Subscript) and isinstance(n.ctx, ast.Load):
+            idx_e = n.slice.elts[-1] if isinstance(n.slice, ast.Tuple) else n.slice
+            d = df.resolve_value(eigs.node, idx_e)
+            if isinstance(d, ast.Compare) or (isinstance(d, ast.BinOp) and isinstance(d.op, (ast.BitAnd, ast.BitOr)) and any(isinstance(x, ast.Compare) for x in ast.walk(d))):
+                masks.append((n, d))
+    if masks:
+        n, d = masks[0]
+        rep.refuted("eigs-pairing", "arnoldi_eigs:complete", f"`{nospace(n)}` selects Ritz values by the data-dependent mask `{nospace(d)[:60]}`: eigenvalues of A that fail the test (zero or tiny "
+                    "relative to the spectral radius) disappear from the returned spectrum", detail="masked", locs=[idx.loc(eigs.module, n)])
+    else:
+        rep.proved("eigs-pairing", "arnoldi_eigs:complete", "no Ritz value is discarded by a data-dependent mask", locs=[idx.loc(eigs.module, eigs.node)])
     buffer_dtype_obligations(idx, rep, init, "buffer-dtype")
+    # ---- the loop stops at an exact breakdown
+    from sa.krylov import breakdown_stops
+    _loops = lp.find_loops(idx, fact)
+    _cert = lp.cap_certificate(idx, _loops[0]) if _loops else {"ok": None}
+    breakdown_stops(idx, rep, fact, "breakdown-stops", f"{fact.short}:cond", _cert.get("counter_slot") if _cert.get("ok") is True else None)
     # ---- HOMOG in the scale of the operator: floors inside the factorisation loop must scale with what they guard
     from sa.homog import krylov_floor_obligations
     krylov_floor_obligations(idx, rep, fact, init, "scale-floor")
